@@ -113,11 +113,11 @@ CHECKS = {
     note=SHIMS + ". flask_login is a stand-in (vt/shims): session-cookie authentication is the stand-in's, the permission decorators and CSRF code are the repository's.",
     design_ref="DESIGN.md section 4, C15"),
  "C16": dict(
-    engine="hypothesis",
-    technique="generated requests over every rule of app.url_map (discovered at run time) x query strings from every registered option name with type-confused, boundary and hostile values x streams with missing pieces; oracle: status < 500 unless the request asked for it, no exception reaches Flask, wall-clock watchdog only marks a case inconclusive; error-injection sequences against a reference counter model",
-    text="Search, not proof: 40k/3M generated requests and 1.2k/80k injection sessions per tier; anonymous and plain-user roles so that stored state stays constant.",
-    note=SHIMS + ". The corrupt-MP4 half of the property is exercised by the mp4_bytes engine (mutated fixture and synthetic files through Mp4Atom.load and the index path) when listed in evidence; see DESIGN.md for its limits.",
-    design_ref="DESIGN.md section 4, C16"),
+    engine="hypothesis + atheris (libFuzzer)",
+    technique="(a) generated requests over every rule of app.url_map (discovered at run time) x query strings from every registered option name with type-confused, boundary and hostile values x streams with missing pieces; oracle: status < 500 unless the request asked for it, no exception reaches Flask. (b) corrupt MP4: structured mutations placed by an independent box walker, and coverage-guided raw bytes (atheris), fed to Mp4Atom.load under a deterministic read budget, a call budget (sys.monitoring) and an address-space limit, and uploaded / indexed / served through every route that reads the file. (c) error-injection request sequences against a reference counter model",
+    text="Search, not proof: 40k/3M generated requests, 1.6k/300k mutated files, 16k/3.2M fuzzer executions and 1.2k/80k injection sessions per tier; anonymous and plain-user roles for (a) so that stored state stays constant, media role with database restore per case for (b).",
+    note=SHIMS + ". Wall-clock watchdogs only mark a case inconclusive (counted in evidence); non-termination of the parser is decided by the read/call budgets. The async inspect-media POST cannot run here (asgiref missing).",
+    design_ref="DESIGN.md section 4 C16 and sections 10.2, 10.7"),
  "C17": dict(
     engine="hypothesis (stateful histories)",
     technique="model-based histories of management API calls (explicit step lists, shrinkable) against a reference object graph; after every step the database is read through raw SQL (referential integrity, ownership of every removed row, uniqueness) and every listed stream / multi-period stream is probed over HTTP (200 or clean 4xx; uploaded+indexed files byte-exact)",
